@@ -3,13 +3,16 @@ import struct
 from fractions import Fraction
 from . import common
 
-LEAN_TARGETS = ["TsrunVerif.Props.C15"]
+LEAN_TARGETS = ["TsrunVerif.Props.C15", "TsrunVerif.Props.C15Radix"]
 P = "TsrunVerif.Num."
 THEOREMS = [P + t for t in [
     "toInt32Int_range", "toInt32Int_congr", "toUint32Int_range", "toUint32Int_congr", "toInt32_toUint32", "shift_count_mod32",
     "toInt32Int_id", "roundHalfUp_nearest", "roundHalfUp_tie_up", "roundFixed_nearest", "roundFixed_exact_when_enough_digits",
-    "exactScaled_value", "layout_plain_iff"]]
+    "exactScaled_value", "layout_plain_iff"]] + \
+    ["TsrunVerif.RadixLit." + t for t in ["or_one", "rneAt_split", "rneAt_sticky", "rneAt_scale", "scan_inv", "literal_correct", "value_bracket"]]
 ASSUMPTIONS = [
+    "M-RadixLit transcribes radix_literal_value (0x / 0o / 0b literals of any length: 120 leading bits, dropped-bit count, sticky flag); `u128 as f64` (round to nearest, ties to even) and the exact scaling of a double by a power of two "
+    "are modelled by rneAt (rounding a natural number at a bit position); overflow to Infinity (values of 2^1024 and above) is outside the theorem and covered by the exact comparison with Python's int -> float",
     "M-Num computes with exact Nat/Int arithmetic on the decoded (sign, mantissa, exponent); the Rust code takes its digits from core::fmt "
     "({:e} shortest digits, {:.N} exact expansion) and str::parse::<f64> — trusted parameters of the implementation, compared bit-exactly on every generated double",
     "the python PROP oracle uses python's own float repr / Fraction arithmetic (independent third implementation) for round-trip, shortest-ness, notation and exact rounding",
@@ -195,12 +198,55 @@ def run(ctx):
     for t in texts[:: 5]:
         if t[0].isdigit() and not (len(t) > 1 and t[0] == "0" and t[1].isdigit()):
             lines.append("X %s" % t)
+    # radix literals of any length: beyond 64 and beyond 128 bits, exact ties, ties broken by a digit far to the right, overflow
+    for _ in range(150 if ctx.tier == "quick" else 3000):
+        radix, pre, dig = rng.choice([(16, "0x", "0123456789abcdefABCDEF"), (8, "0o", "01234567"), (2, "0b", "01")])
+        bits_wanted = rng.choice([8, 40, 53, 54, 60, 64, 65, 100, 127, 128, 129, 140, 200, 400, 1023, 1024, 1025, 1100])
+        per = {16: 4, 8: 3, 2: 1}[radix]
+        k = rng.randrange(6)
+        if k < 2:
+            digs = "".join(rng.choice(dig) for _ in range(max(1, bits_wanted // per)))
+        else:
+            # 2^53 + 1 (a tie between two doubles), then zeros, then possibly one low digit that breaks the tie
+            lead = {16: "20000000000001", 8: "400000000000000001", 2: "1" + "0" * 52 + "1"}[radix]
+            if k == 3:
+                lead = {16: "20000000000003", 8: "400000000000000003", 2: "1" + "0" * 51 + "11"}[radix]
+            tail = "0" * max(0, bits_wanted // per - len(lead))
+            if k >= 4 and tail:
+                j = rng.randrange(len(tail))
+                tail = tail[:j] + rng.choice(dig[1:]) + tail[j + 1:]
+            digs = lead + tail
+        if rng.randrange(4) == 0 and len(digs) > 3:
+            j = rng.randrange(1, len(digs) - 1)
+            digs = digs[:j] + "_" + digs[j:]
+        lines.append("X %s%s" % (pre, digs))
     ops = ["&", "|", "^", "<<", ">>", ">>>"]
     ints = [b for b in fin if abs(fl(b)) < 2 ** 70] + [bits(float(v)) for v in (2 ** 32, 2 ** 31, -2 ** 31, 2 ** 32 + 5, 1e10, -1e10, 33, 32, 31, -1, 0, 1, 2 ** 53, 1e21)]
     for _ in range(400 if ctx.tier == "quick" else 6000):
         lines.append("B %s %d %d" % (rng.choice(ops), rng.choice(ints), rng.choice(ints)))
     exp = common.driver(["num"], lines)
     got = common.harness(["num"], lines)
+    # CORR: M-RadixLit == the lexer on every radix literal of the run (the model yields an exact integer below 2^1024)
+    rad = [l for l in lines if l.startswith("X 0") and l[3:4] in ("x", "o", "b")]
+    per = {"x": 4, "o": 3, "b": 1}
+    mlines = ["%d\t%s" % (per[l[3]], ",".join(str(int(c, 16)) for c in l[4:].replace("_", ""))) for l in rad]
+    mout = common.driver(["radix"], mlines)
+    gmap = dict(zip(lines, got))
+    nrad = 0
+    for l, mo in zip(rad, mout):
+        ctx.cov["evaluations"] += 1
+        g = gmap.get(l, "")
+        if not mo.isdigit():
+            ctx.corr_fail("M-RadixLit driver rejected a literal", l, mo, g)
+            continue
+        v = int(mo)
+        if v >= 2 ** 1024:
+            continue
+        ctx.cov["traces_validated_against_impl"] += 1
+        nrad += 1
+        if not g.isdigit() or Fraction(fl(int(g))) != v:
+            ctx.corr_fail("M-RadixLit and the lexer read a radix literal differently", l, mo, g)
+    ctx.notes.append("radix literals: %d compared with M-RadixLit (lengths up to 1100 bits, exact ties and ties broken by a far digit)" % nrad)
     kinds = {}
     distinct = set()
     for line, e, g in zip(lines, exp, got):
@@ -253,7 +299,13 @@ def run(ctx):
         elif k in "DX":
             t = parts[1]
             try:
-                want = float(t)
+                if t[:2] in ("0x", "0o", "0b"):
+                    try:
+                        want = float(int(t.replace("_", ""), 0))      # int -> float rounds to nearest, ties to even
+                    except OverflowError:
+                        want = float("inf")
+                else:
+                    want = float(t)
             except ValueError:
                 continue
             if g.startswith("ERR") or g == "nan" or fl(int(g)) != want:
